@@ -17,7 +17,7 @@ EXPLANATION = ("Real ethernet.parse/parse_next and every reachable parse(), __st
 FUNCTIONS = ["pox.lib.packet.ethernet/vlan/llc/arp/ipv4/ipv6/icmp/icmpv6/tcp/udp/dhcp/dns/lldp/mpls/gre/vxlan/igmp/rip/eapol/eap .parse/.hdr/.pack/__str__",
              "packet_base.dump/pack/find"]
 BOUNDS = {}
-OUTSIDE = ["frames longer than the stated lengths", "numeral expansion in printed text (dry rendering checks types/argument counts only)"]
+OUTSIDE = ["frames longer than the stated lengths", "IGMPv3 group records cut at an offset that is not a multiple of 4 (IPAddr then parses 1-3 bytes as text)", "numeral expansion in printed text (dry rendering checks types/argument counts only)"]
 ASSUMPTIONS = []
 
 ETH = [2, 0, 0, 0, 0, 1, 2, 0, 0, 0, 0, 2]
@@ -81,6 +81,10 @@ TEMPLATES = {
   # LLDPDU whose three mandatory TLV headers are fixed (chassis id len 7, port id len 3, ttl len 2); the bodies of these and the
   # whole 4th TLV (type, length, body) and everything after it are symbolic
   'lldp4':     lambda n: ETH + [0x88, 0xcc],
+  # IPv4/TCP segment with a long payload: data offset and the option bytes symbolic, everything else concrete - an option whose length
+  # byte reaches far beyond the TCP header
+  'tcp_long':  lambda n: ETH + [0x08, 0x00],
+  'tcp_mptcp': lambda n: ETH + [0x08, 0x00],
 }
 
 
@@ -102,13 +106,28 @@ def h_template(ctx, name, n, proto=None, ports=None):
     body[9] = proto
     # fragment offset 0 (flags free) so that the payload is parsed
     body[6] = body[6] & 0xe0; body[7] = 0
+    if proto == 2:
+      # IGMP: total length concrete (= the frame), so that truncation falls on 4-byte boundaries of the group records; address slices of 1-3
+      # bytes would be read as *text* by IPAddr, and inet_aton's classful short forms are not modelled (outside the claim)
+      body[2:4] = [(n - 14) >> 8, (n - 14) & 255]
     if ports is not None and len(body) >= 24:
       sp, dp = ports
       if sp is not None: body[20:22] = [sp >> 8, sp & 255]
       if dp is not None: body[22:24] = [dp >> 8, dp & 255]
-  if ports == (68, 67) and len(body) >= 28 + 240:
+  if ports is not None and tuple(ports) == (68, 67) and len(body) >= 28 + 240:
     body[28 + 236:28 + 240] = [0x63, 0x82, 0x53, 0x63]      # DHCP magic cookie, so that the option parser is reached; hlen stays symbolic
     for k in range(28 + 44, 28 + 236): body[k] = 0           # sname / file: concrete zeros (only copied)
+  if name in ('tcp_long', 'tcp_mptcp'):
+    iplen = n - 14
+    sym = body
+    iph = [0x45, 0, iplen >> 8, iplen & 255, 0, 1, 0, 0, 64, 6, 0, 0, 10, 0, 0, 1, 10, 0, 0, 2]
+    if name == 'tcp_long':
+      # data offset 6: one 4-byte option word, all four bytes symbolic (a length byte may point far into the 270-byte payload)
+      opts = list(sym[0:4]); off = 6
+    else:
+      # MPTCP option (kind 30): length, subtype/version, flags and four more bytes symbolic, the rest of a 24-byte option area concrete
+      opts = [30, sym[0], sym[1], sym[2]] + list(sym[3:7]) + [1, 2, 3, 4, 5, 6, 7, 8, 9, 10, 11, 12, 13, 14, 15, 16]; off = 11
+    body = iph + [0x12, 0x34, 0, 80, 0, 0, 0, 1, 0, 0, 0, 2, off << 4, 0x10, 0x20, 0, 0, 0, 0, 0] + opts + [(k * 7) & 0xff for k in range(n - 14 - 20 - 20 - len(opts))]
   if name == 'lldp4' and len(body) >= 18:
     body[0:2] = [2, 7]; body[9:11] = [4, 3]; body[14:16] = [6, 2]
   if name == 'ipv6' and len(body) >= 40:
@@ -129,7 +148,8 @@ def obligations(tier):
                      ('mpls', [14, 18, 22]), ('llc', [14, 17, 18, 22, 24]), ('ipv6', [14, 30, 54, 58])):
     for n in lens: t.append(dict(name=name, n=n))
   for n in [32, 34, 36] + ([38] if thorough else []): t.append(dict(name='lldp4', n=n))
-  for proto, lens in ((1, [34, 38, 42, 46, 62]), (6, [34, 54, 56] + ([58, 62] if thorough else [])), (17, [34, 42, 46]), (2, [34, 42, 46]),
+  t.append(dict(name='tcp_long', n=330)); t.append(dict(name='tcp_mptcp', n=90))
+  for proto, lens in ((1, [34, 38, 42, 46, 62, 66, 70]), (6, [34, 54, 56] + ([58, 62] if thorough else [])), (17, [34, 42, 46]), (2, [34, 42, 46, 50, 54, 58]),
                       (47, [34, 38, 42, 46]), (99, [34, 38])):
     for n in lens: t.append(dict(name='ip', n=n, proto=proto))
   for ports, lens in (((None, 53), [46, 54] + ([55, 58] if thorough else [])), ((68, 67), [50, 54, 282, 286] + ([288] if thorough else [])), ((None, 520), [46, 50, 66]),
@@ -137,7 +157,7 @@ def obligations(tier):
     for n in lens: t.append(dict(name='ip', n=n, proto=17, ports=ports))
   for proto, lens in ((58, [54, 58, 62, 78]), (17, [54, 62]), (6, [54, 74]), (0, [54, 62, 70]), (43, [62]), (44, [62]), (60, [62])):
     for n in lens: t.append(dict(name='ipv6', n=n, proto=proto))
-  if not thorough: t = [c for i, c in enumerate(t) if c['n'] <= 58 or c.get('ports') == (68, 67)]
+  if not thorough: t = [c for i, c in enumerate(t) if c['n'] <= 58 or c.get('ports') == (68, 67) or c.get('proto') == 1 or c['name'] in ('tcp_long', 'tcp_mptcp')]
   BOUNDS[tier] = dict(random_frame_lengths=rnd, templates=len(t), template_note="dispatch fields fixed, all other bytes (incl. every length/offset field) symbolic, "
                       "frame length = truncation point")
   return [
